@@ -47,7 +47,7 @@ def execute(sc, keep=False):
                 results[st["id"]] = execu.Outcome("", "skipped", -999, "skipped")
                 continue
             argv = [x.replace("{ROOT}", root) for x in st["argv"]]
-            results[st["id"]] = execu.run_cmd(argv, cwd, st.get("env"), st.get("timeout", 30.0))
+            results[st["id"]] = execu.run_cmd(argv, cwd, st.get("env"), st.get("timeout", 10.0))
         failures = []
         for a in sc["asserts"]:
             f = ASSERT_KINDS[a["kind"]](a, results, ctx)
